@@ -332,3 +332,19 @@ func (cl *Client) VerifConns() ([]*Conn, bool) {
 
 	return out, cl.closed
 }
+
+// VerifSetupConsts returns what a server built with no configuration ends up
+// with: ServerConfig.defaults applied to the zero value, the package's default
+// header list limit, and fasthttp's default request body limit.
+func VerifSetupConsts() map[string]int64 {
+	var cnf ServerConfig
+	cnf.defaults()
+
+	return map[string]int64{
+		"srvDefaultMaxStreams":        int64(cnf.MaxConcurrentStreams),
+		"srvDefaultMaxHeaderListSize": int64(cnf.MaxHeaderListSize),
+		"DefaultMaxHeaderListSize":    int64(DefaultMaxHeaderListSize),
+		"fasthttpDefaultMaxBody":      int64(maxRequestBodySize(&fasthttp.Server{})),
+		"srvMaxWindow":                1 << 22,
+	}
+}
